@@ -1,7 +1,7 @@
 (* C12 Proxy resources are accounted consistently and chunks span two hosts.
    Statements only; proofs live in Proofs/BrokerAcct*.v.  Model: Model/Broker.v (step / run). *)
 From UM Require Import Base.BytesDef Model.Ranges Model.Broker Proofs.BrokerBase Proofs.BrokerAcctBase Proofs.BrokerAcctAlloc
-     Proofs.BrokerAcctInv Proofs.BrokerAcctOps.
+     Proofs.BrokerAcctInv Proofs.BrokerAcctOps Proofs.BrokerAcctThm Proofs.BrokerAcctLink Proofs.BrokerAcctRepl Proofs.BrokerAcctPanic Proofs.BrokerAcctEx.
 
 (* reachable s := exists ordered ops, Forall restore_ok ops /\ s = run (init_store ordered) ops
    restore_ok (ORestore snap) := acct_inv snap   (any other operation: True)
@@ -48,12 +48,144 @@ Proof. exact reachable_closed_accounting. Qed.
 Check C12_accounting_closed : forall s, reachable_closed s -> acct_inv s /\ check_metadata s = true.
 Print Assumptions C12_accounting_closed.
 
+(* cluster membership and the free pool are exact complements: every chunk position is a registered proxy; a registered proxy
+   is untagged iff it occupies no chunk position; a free healthy proxy (free_proxies = get_free_proxies of query.rs) occupies none *)
+Theorem C12_complement : forall s, reachable s ->
+  (forall a, In a (all_positions (st_clusters s)) -> amem a (st_proxies s) = true) /\
+  (forall a r, alookup a (st_proxies s) = Some r -> (pr_cluster r = None <-> ~ In a (all_positions (st_clusters s)))) /\
+  (forall e, In e (free_proxies s) -> ~ In (fst e) (all_positions (st_clusters s))).
+Proof. exact reachable_complement. Qed.
+Check C12_complement : forall s, reachable s ->
+  (forall a, In a (all_positions (st_clusters s)) -> amem a (st_proxies s) = true) /\
+  (forall a r, alookup a (st_proxies s) = Some r -> (pr_cluster r = None <-> ~ In a (all_positions (st_clusters s)))) /\
+  (forall e, In e (free_proxies s) -> ~ In (fst e) (all_positions (st_clusters s))).
+Print Assumptions C12_complement.
+
+(* A refused (or panicking) allocation request leaves the whole store unchanged.
+   is_allocation o := o is OAddCluster / OAutoAddNodes / OAutoScaleUp.
+   Not covered on purpose: OMigrateSlots / OScaleDown bump the global epoch before they fail (the code does the same),
+   OAutoChange releases the free chunks of the cluster before the scale-up can be refused. *)
+Theorem C12_refusal_atomic : forall s o s' x, is_allocation o -> step s o = (s', x) -> x <> ROk -> s' = s.
+Proof. exact refusal_atomic. Qed.
+Check C12_refusal_atomic : forall s o s' x, is_allocation o -> step s o = (s', x) -> x <> ROk -> s' = s.
+Print Assumptions C12_refusal_atomic.
+
+(* Host-aware allocator (st_ordered = false): for EVERY oracle choice list the model accepts, the chunks appended by a
+   successful cluster creation / scale-out have their two halves on different hosts.
+   new_chunks_two_hosts s s' name := exists cl' new, alookup name (st_clusters s') = Some cl' /\
+      cl_chunks cl' = (chunks of name in s, [] if absent) ++ new /\ (forall c, In c new -> ck_host0 c <> ck_host1 c) /\
+      every other cluster is unchanged. *)
+Theorem C12_two_hosts : forall s o s', st_ordered s = false -> step s o = (s', ROk) ->
+  match o with
+  | OAddCluster name _ _ _ | OAutoAddNodes name _ _ | OAutoScaleUp name _ _ => new_chunks_two_hosts s s' name
+  | _ => True
+  end.
+Proof. exact two_hosts. Qed.
+Check C12_two_hosts : forall s o s', st_ordered s = false -> step s o = (s', ROk) ->
+  match o with
+  | OAddCluster name _ _ _ | OAutoAddNodes name _ _ | OAutoScaleUp name _ _ => new_chunks_two_hosts s s' name
+  | _ => True
+  end.
+Print Assumptions C12_two_hosts.
+
+(* scale-out through the node-number API (free chunks are released first, then auto_scale_up_nodes runs) *)
+Theorem C12_two_hosts_autochange : forall s name k ch s',
+  st_ordered s = false -> step s (OAutoChange name k ch) = (s', RScale ScaleOut) ->
+  new_chunks_two_hosts (fst (auto_delete_free_nodes s name)) s' name.
+Proof. exact two_hosts_autochange. Qed.
+Check C12_two_hosts_autochange : forall s name k ch s',
+  st_ordered s = false -> step s (OAutoChange name k ch) = (s', RScale ScaleOut) ->
+  new_chunks_two_hosts (fst (auto_delete_free_nodes s name)) s' name.
+Print Assumptions C12_two_hosts_autochange.
+
+(* Replacement of a failed proxy (host-aware mode).  If replace_failed_proxy s f choice succeeds with replacement r then r is a
+   registered, free, healthy proxy (is_free: untagged, not in st_failed, no failure report) different from f, and:
+   whenever the surviving partner of f is on host ph (partner_host = host recorded for the other half of the stored chunk
+   holding f, see partner_host_sound) and SOME host h <> ph has a free healthy proxy
+   (0 < cnt_of (host_counts (free_proxies s)) h), the replacement is NOT on ph.
+   "Has a free healthy proxy" suffices: by link_entry the link table has an entry between any two distinct hosts of which one
+   has an untagged proxy, so every such host is a candidate of generate_new_free_proxy; host_rank orders
+   other hosts < f's own host < partner's host and the model accepts only a choice of minimal rank. *)
+Theorem C12_replacement_host : forall s f choice s' r,
+  acct_inv s -> replace_failed_proxy s f choice = (s', Done (Some r)) ->
+  exists fr name rr,
+    alookup f (st_proxies s) = Some fr /\ pr_cluster fr = Some name /\ st_ordered s = false /\
+    alookup r (st_proxies s) = Some rr /\ is_free s (r, rr) = true /\ r <> f /\
+    forall ph, partner_host (st_clusters s) f = Some ph ->
+               (exists h, h <> ph /\ 0 < cnt_of (host_counts (free_proxies s)) h) ->
+               pr_host rr <> ph.
+Proof. exact replacement_host. Qed.
+Check C12_replacement_host : forall s f choice s' r,
+  acct_inv s -> replace_failed_proxy s f choice = (s', Done (Some r)) ->
+  exists fr name rr,
+    alookup f (st_proxies s) = Some fr /\ pr_cluster fr = Some name /\ st_ordered s = false /\
+    alookup r (st_proxies s) = Some rr /\ is_free s (r, rr) = true /\ r <> f /\
+    forall ph, partner_host (st_clusters s) f = Some ph ->
+               (exists h, h <> ph /\ 0 < cnt_of (host_counts (free_proxies s)) h) ->
+               pr_host rr <> ph.
+Print Assumptions C12_replacement_host.
+
+(* meaning of partner_host *)
+Theorem C12_partner_host_sound : forall cs f ph, partner_host cs f = Some ph ->
+  exists n cl c, In (n, cl) cs /\ In c (cl_chunks cl) /\
+                 ((ck_proxy0 c = f /\ ph = ck_host1 c) \/ (ck_proxy1 c = f /\ ph = ck_host0 c)).
+Proof. exact partner_host_sound. Qed.
+Check C12_partner_host_sound : forall cs f ph, partner_host cs f = Some ph ->
+  exists n cl c, In (n, cl) cs /\ In c (cl_chunks cl) /\
+                 ((ck_proxy0 c = f /\ ph = ck_host1 c) \/ (ck_proxy1 c = f /\ ph = ck_host0 c)).
+Print Assumptions C12_partner_host_sound.
+
+(* the link table has an entry between two distinct registered hosts as soon as one of them has an untagged proxy *)
+Theorem C12_link_entry : forall s h1 h2,
+  In h1 (all_hosts s) -> In h2 (all_hosts s) -> h1 <> h2 -> (In h1 (free_hosts s) \/ In h2 (free_hosts s)) ->
+  lt_get (build_link_table s) h1 h2 <> None.
+Proof. exact link_entry. Qed.
+Check C12_link_entry : forall s h1 h2,
+  In h1 (all_hosts s) -> In h2 (all_hosts s) -> h1 <> h2 -> (In h1 (free_hosts s) \/ In h2 (free_hosts s)) ->
+  lt_get (build_link_table s) h1 h2 <> None.
+Print Assumptions C12_link_entry.
+
+(* No allocation request panics: for every store (no invariant needed), every request and EVERY oracle choice list, none of
+   the `expect`s of allocate_chunk / generate_free_chunks (model outcome Panic) is reached by cluster creation or scale-out. *)
+Theorem C12_no_panic : forall s o, is_allocation o -> snd (step s o) <> RPanic.
+Proof. exact allocation_no_panic. Qed.
+Check C12_no_panic : forall s o, is_allocation o -> snd (step s o) <> RPanic.
+Print Assumptions C12_no_panic.
+
+(* the allocator itself, for an even number of requested proxies (proxy_num = node_num / 2 with node_num mod 4 = 0) *)
+Theorem C12_allocator_no_panic : forall s proxy_num choices,
+  proxy_num mod 2 = 0 -> generate_free_chunks s proxy_num choices <> Panic.
+Proof. exact generate_free_chunks_no_panic. Qed.
+Check C12_allocator_no_panic : forall s proxy_num choices,
+  proxy_num mod 2 = 0 -> generate_free_chunks s proxy_num choices <> Panic.
+Print Assumptions C12_allocator_no_panic.
+
+(* the progress invariant of the allocation loop (r + 1 pairs still to allocate):
+   alloc_inv cnts links r := keys_sorted cnts /\ (any two distinct hosts of cnts have a link-table entry) /\
+                             2 * counts_max cnts <= counts_sum cnts + 1 /\ 2 * r <= counts_sum cnts.
+   It excludes every panic of one iteration, it is preserved by every accepted iteration, and the loop cannot be stuck. *)
+Theorem C12_alloc_progress : forall s cnts links r,
+  alloc_inv cnts links (S r) ->
+  alloc_stuck cnts links = false /\
+  forall taken a b,
+    alloc_one s cnts links taken a b <> Panic /\
+    forall cnts' links', alloc_one s cnts links taken a b = Done (cnts', links') -> alloc_inv cnts' links' r.
+Proof. exact alloc_progress. Qed.
+Check C12_alloc_progress : forall s cnts links r,
+  alloc_inv cnts links (S r) ->
+  alloc_stuck cnts links = false /\
+  forall taken a b,
+    alloc_one s cnts links taken a b <> Panic /\
+    forall cnts' links', alloc_one s cnts links taken a b = Done (cnts', links') -> alloc_inv cnts' links' r.
+Print Assumptions C12_alloc_progress.
+
+(* replacement of a failed proxy never panics on a store satisfying the accounting invariant *)
+Theorem C12_replace_no_panic : forall s f choice, acct_inv s -> snd (replace_failed_proxy s f choice) <> Panic.
+Proof. exact replace_failed_proxy_no_panic. Qed.
+Check C12_replace_no_panic : forall s f choice, acct_inv s -> snd (replace_failed_proxy s f choice) <> Panic.
+Print Assumptions C12_replace_no_panic.
+
 (* ---------- examples: the hypotheses are satisfiable by concrete non-trivial stores ---------- *)
-Definition ex_ops : list op :=
-  [OAddProxy 1 (Some 10) None; OAddProxy 2 (Some 10) None; OAddProxy 3 (Some 11) None; OAddProxy 4 (Some 11) None;
-   OAddProxy 5 (Some 12) None; OAddProxy 6 (Some 12) None;
-   OAddCluster 1 4 1 [(1, 3)]; OAutoAddNodes 1 4 [(5, 2)]; OMigrateSlots 1].
-Definition ex_store : store := run (init_store false) ex_ops.
 
 Example C12_accounting_example :
   reachable ex_store /\ map fst (st_clusters ex_store) = [1] /\
@@ -62,4 +194,62 @@ Example C12_accounting_example :
     [(1, Some 1); (2, Some 1); (3, Some 1); (4, None); (5, Some 1); (6, None)].
 Proof.
   split; [exists false, ex_ops; split; [repeat constructor|reflexivity]|]. vm_compute. repeat split.
+Qed.
+
+
+(* a refusal (not enough resources; unknown cluster) and a success on the same store *)
+Example C12_refusal_example :
+  snd (step ex_free (OAddCluster 1 16 1 [])) = RErr E_NoAvailableResource /\
+  snd (step ex_free (OAutoAddNodes 7 4 [])) = RErr E_ClusterNotFound /\
+  snd (step ex_store (OAutoScaleUp 1 16 [])) = RErr E_MigrationRunning.
+Proof. vm_compute. repeat split. Qed.
+
+Example C12_two_hosts_example :
+  st_ordered ex_free = false /\ snd (step ex_free (OAddCluster 1 8 1 [(1, 3); (5, 2)])) = ROk /\
+  match alookup 1 (st_clusters (fst (step ex_free (OAddCluster 1 8 1 [(1, 3); (5, 2)])))) with
+  | Some cl => map (fun c => (ck_host0 c, ck_host1 c)) (cl_chunks cl) = [(10, 11); (12, 10)]
+  | None => False
+  end /\
+  (* a same-host pair is not a choice the algorithm can make: the model rejects it *)
+  snd (step ex_free (OAddCluster 1 4 1 [(1, 2)])) = RErr E_BadChoice.
+Proof. vm_compute. repeat split. Qed.
+
+(* proxy 1 (host 10) of the chunk (1 on host 10, 3 on host 11) fails; hosts 10, 11, 12 all have a free proxy;
+   the replacement must be on host 12: the partner's host 11 and (second choice) the own host 10 are rejected *)
+Example C12_replacement_example :
+  reachable ex_one /\ partner_host (st_clusters ex_one) 1 = Some 11 /\
+  host_counts (free_proxies ex_one) = [(10, 1); (11, 1); (12, 2)] /\
+  snd (replace_failed_proxy ex_one 1 (Some 5)) = Done (Some 5) /\
+  snd (replace_failed_proxy ex_one 1 (Some 4)) = Fail E_BadChoice /\
+  snd (replace_failed_proxy ex_one 1 (Some 2)) = Fail E_BadChoice.
+Proof.
+  split; [exists false, (ex_proxies ++ [OAddCluster 1 4 1 [(1, 3)]]); split; [repeat constructor|reflexivity]|].
+  vm_compute. repeat split.
+Qed.
+
+(* the allocator on 3 hosts x 2 free proxies: the invariant holds initially (S = 6, M = 2, 3 pairs), all six proxies are used;
+   the evenness hypothesis of C12_allocator_no_panic is necessary: with ONE proxy on each of three hosts a request for 3
+   proxies (which add_cluster / auto_add_nodes can never issue) gets stuck in the second iteration *)
+Example C12_no_panic_example :
+  trim_counts (host_counts (free_proxies ex_free)) = [(10, 2); (11, 2); (12, 2)] /\
+  generate_free_chunks ex_free 6 [(1, 3); (5, 2); (4, 6)] = Done [(1, 3); (5, 2); (4, 6)] /\
+  generate_free_chunks ex_three 2 [(1, 2)] = Done [(1, 2)] /\
+  generate_free_chunks ex_three 3 [(1, 2)] = Panic.
+Proof. vm_compute. repeat split. Qed.
+Example C12_alloc_progress_example :
+  alloc_inv (trim_counts (host_counts (free_proxies ex_free))) (build_link_table ex_free) 3.
+Proof.
+  split; [apply trim_counts_sorted, host_counts_sorted|]. split; [apply initial_covered|]. vm_compute. split; discriminate.
+Qed.
+
+Example C12_accounting_closed_example :
+  reachable_closed (run ex_one [ORestore ex_store; OReplaceFailed 1 (Some 6)]) /\
+  map fst (free_proxies (run ex_one [ORestore ex_store; OReplaceFailed 1 (Some 6)])) = [4].
+Proof.
+  split; [|vm_compute; reflexivity].
+  assert (H : forall ops, forallb not_restore ops = true -> reachable_closed (run (init_store false) ops)).
+  { intros ops Hn. apply reachable_closed_run; [apply rc_init|apply no_restore_closed; exact Hn]. }
+  apply reachable_closed_run; [apply (H (ex_proxies ++ [OAddCluster 1 4 1 [(1, 3)]])); reflexivity|].
+  apply Forall_cons; [|apply (no_restore_closed [OReplaceFailed 1 (Some 6)]); reflexivity].
+  intros snap E. injection E as <-. apply (H ex_ops). reflexivity.
 Qed.
